@@ -85,8 +85,12 @@ def run(tier, prop=PROP, module=MODULE, files=FILES):
     from harness.methods import quiet
     for n_ in (61, 101):
         i_ = np.arange(n_, dtype=float)
-        for gname, rpx in (("uniform", i_ * 0.8), ("stretched", i_ * (1 + 0.004 * i_))):
+        # (offset: a grid that does not start on the axis — every sample, the first included, is an ordinary one; drifting: a step that
+        #  grows by 0.07 % per sample is not a uniform grid, however slowly it drifts)
+        for gname, rpx in (("uniform", i_ * 0.8), ("stretched", i_ * (1 + 0.004 * i_)), ("offset", 0.3 * n_ + i_ * 0.8), ("offset-stretched", 8.0 + i_ * (1 + 0.004 * i_)),
+                           ("drifting", np.concatenate([[0.0], np.cumsum(1.0007 ** np.arange(3 * n_ - 1))]))):
             wpx = rpx[-1] / 4
+            lo_ = 0 if gname.startswith("offset") else 2
             errs = {}
             for unit in (1.0, 1e-6, 1e-3, 1e4, 1e-13, 1e-16):
                 r_, w_ = rpx * unit, wpx * unit
@@ -96,17 +100,18 @@ def run(tier, prop=PROP, module=MODULE, files=FILES):
                 try:
                     if direction == "forward":
                         got = quiet(abel.direct.direct_transform, src, r=r_, direction="forward", backend="python")
-                        errs[unit] = float(np.abs(got - prj)[2:-4].max() / prj.max())
+                        errs[unit] = float(np.abs(got - prj)[lo_:-4].max() / prj.max())
                     else:
                         got = quiet(abel.direct.direct_transform, prj, r=r_, direction="inverse", backend="python")
-                        errs[unit] = float(np.abs(got - src)[2:-4].max() / src.max())
+                        errs[unit] = float(np.abs(got - src)[lo_:-4].max() / src.max())
                 except Exception as e:
                     ck.violation(dict(site="direct", clause="exception", direction=direction), dict(grid=gname, n=n_, unit=unit), f"{type(e).__name__}: {e}")
-            if errs and (max(errs.values()) - min(errs.values()) > 1e-6 or max(errs.values()) > 0.05):
+            # (deterministic cases; the repaired pinned tree gives at most 0.009, on the drifting grid 0.0025)
+            if errs and (max(errs.values()) - min(errs.values()) > 1e-6 or max(errs.values()) > (0.006 if gname == "drifting" else 0.02)):
                 worst_u = max(errs, key=errs.get)
                 ck.violation(dict(site="direct", clause="length-unit", direction=direction), dict(grid=gname, n=n_, errors={str(k): v for k, v in errs.items()}),
                              f"direct {direction} of a Gaussian on the {gname} explicit grid: error relative to the peak is {errs[worst_u]:.3g} with the grid in units of "
-                             f"{worst_u:g} but {min(errs.values()):.3g} in another unit")
+                             f"{worst_u:g}, {min(errs.values()):.3g} in another unit (allowed: the same in every unit and at most {0.006 if gname == 'drifting' else 0.02})")
     ck.notes.append(f"random stream families: {dist}")
     worst = sorted(((v, k) for k, v in measured.items() if k.startswith(("inverse" if prop == "C01" else "forward") + "|") and isinstance(v, float)),
                    reverse=True)[:5]
